@@ -74,6 +74,11 @@ func (fc *FnCtx) callEffects(cc *ssa.CallCommon) effects {
 		if ms, ok := fc.modSorts(c, callee); ok {
 			eff.sorts = ms
 		}
+		if !c.Assumed {
+			for g := range fc.eng.ghostsTouchedByBody(callee) {
+				eff.ghosts[g] = true
+			}
+		}
 		return eff
 	}
 	if m, ok := libModels[fullName(callee)]; ok {
@@ -81,6 +86,11 @@ func (fc *FnCtx) callEffects(cc *ssa.CallCommon) effects {
 	}
 	eff.all = true
 	eff.allocs = true
+	if fc.eng.isRepoFunc(callee) {
+		for g := range fc.eng.ghostsTouchedByBody(callee) {
+			eff.ghosts[g] = true
+		}
+	}
 	return eff
 }
 
@@ -171,6 +181,7 @@ func (fc *FnCtx) call(ins ssa.Instruction, cc *ssa.CallCommon) {
 		}
 		fc.notes = append(fc.notes, "unmodelled interface call "+ifaceName(cc)+"."+cc.Method.Name())
 		fc.havocAll("invoke")
+		fc.havocAllGhosts()
 		setRes(fc.freshResult(cc.Signature().Results()))
 		return
 	}
@@ -257,6 +268,7 @@ func (fc *FnCtx) call(ins ssa.Instruction, cc *ssa.CallCommon) {
 		fc.assume(Ge(nn, fc.cur.next))
 		fc.cur.next = nn
 		fc.havocFresh(fc.cur, pre)
+		fc.havocGhosts(fc.cur, fc.eng.ghostsTouchedByBody(callee))
 		setRes(fc.freshResult(callee.Signature.Results()))
 		return
 	}
@@ -271,6 +283,7 @@ func (fc *FnCtx) call(ins ssa.Instruction, cc *ssa.CallCommon) {
 		}
 		// closure bodies read/write captured variables: unknown effect
 		fc.havocAll("call " + relName(callee))
+		fc.havocGhosts(fc.cur, fc.eng.ghostsTouchedByBody(callee))
 		setRes(fc.freshResult(callee.Signature.Results()))
 		return
 	}
@@ -335,6 +348,28 @@ func (fc *FnCtx) freshResult(res *types.Tuple) Value {
 		fc.assume(f)
 	}
 	return v
+}
+
+// havocGhosts replaces the given ghost variables by unknown values.
+func (fc *FnCtx) havocGhosts(st *State, gs map[string]bool) {
+	var names []string
+	for g := range gs {
+		if _, ok := st.ghost[g]; ok {
+			names = append(names, g)
+		}
+	}
+	sort.Strings(names)
+	for _, g := range names {
+		st.ghost[g] = fc.freshConst("G_"+g+"_call", st.ghost[g].Sort)
+	}
+}
+
+func (fc *FnCtx) havocAllGhosts() {
+	all := map[string]bool{}
+	for g := range fc.cur.ghost {
+		all[g] = true
+	}
+	fc.havocGhosts(fc.cur, all)
 }
 
 // applyContract: assert pre, apply frame, assume post.
@@ -526,6 +561,11 @@ func (fc *FnCtx) applyContract(c *Contract, cname string, names []string, typs [
 			continue
 		}
 		fc.assume(eqs)
+	}
+	// ghost state the callee's body may change (through its own callees): unknown after the call,
+	// constrained only by what the callee's postconditions say about it
+	if callee != nil && !c.Assumed && !c.Pure {
+		fc.havocGhosts(st, fc.eng.ghostsTouchedByBody(callee))
 	}
 	// results
 	res := fc.freshResult(results)
@@ -1255,6 +1295,7 @@ func (fc *FnCtx) dynamicCall(cc *ssa.CallCommon, args []Value, pos token.Pos) Va
 	}
 	fc.notes = append(fc.notes, "dynamic call of function value")
 	fc.havocAll("dyncall")
+	fc.havocAllGhosts()
 	return fc.freshResult(sig.Results())
 }
 
